@@ -2,13 +2,13 @@
 package jsonSubProto
 
 import (
-	"bytes"
 	"encoding/json"
 	"fmt"
 	"io/ioutil"
 	"sync"
 
 	"github.com/henrylee2cn/erpc/v6"
+	"github.com/henrylee2cn/erpc/v6/utils"
 	"github.com/henrylee2cn/goutil"
 	"github.com/tidwall/gjson"
 )
@@ -68,7 +68,7 @@ func (j *jsonSubProto) Pack(m erpc.Message) error {
 		m.ServiceMethod(),
 		m.Meta().QueryString(),
 		m.BodyCodec(),
-		bytes.Replace(bodyBytes, []byte{'"'}, []byte{'\\', '"'}, -1),
+		utils.AppendJSONStrBody(nil, bodyBytes),
 		xferPipeIDsBytes,
 	)
 
